@@ -82,10 +82,11 @@ type msgAlt struct {
 	msg   []byte
 }
 
-// messageAlterations: single-bit flips of selected bytes (quick: bits 0 and 7 of byte 0, one bit of the middle byte, bits
-// 0 and 7 of the last byte; thorough: every bit of byte 0 and one bit of every other byte), append one byte, drop the last
-// byte. appendByte is 0x00 except for Mina (see the mina section).
-func messageAlterations(m []byte, appendByte byte) []msgAlt {
+// messageAlterations: single-bit flips of selected bytes (sparse: bits 0 and 7 of byte 0, one bit of the middle byte, bits
+// 0 and 7 of the last byte; dense: every bit of byte 0 and one bit of every other byte), append one byte, drop the last
+// byte. appendByte is 0x00 except for Mina (see the mina section). Quick is sparse; thorough is dense on the
+// configurations each section names.
+func messageAlterations(m []byte, appendByte byte, dense bool) []msgAlt {
 	var out []msgAlt
 	flip := func(pos int, bit uint) {
 		c := append([]byte{}, m...)
@@ -94,7 +95,7 @@ func messageAlterations(m []byte, appendByte byte) []msgAlt {
 	}
 	if len(m) > 0 {
 		for b := uint(0); b < 8; b++ {
-			if engine.Thorough() || b == 0 || b == 7 {
+			if dense || b == 0 || b == 7 {
 				flip(0, b)
 			}
 		}
@@ -105,7 +106,7 @@ func messageAlterations(m []byte, appendByte byte) []msgAlt {
 			flip(len(m)-1, 7)
 			flip(len(m)-1, 0)
 		}
-		if engine.Thorough() {
+		if dense {
 			for i := 1; i < len(m)-1; i++ {
 				if i != len(m)/2 {
 					flip(i, uint(i%8))
